@@ -122,7 +122,7 @@ def install_solver_calls(interp, e, *, locate_kinds, solve_t_qualname='fsic.core
 
 class SolvePeriodContract(FunctionContract):
     qualname = 'fsic.core.interfaces.SolverMixin.solve_period'
-    props = ('C02', 'C05')
+    props = ('C02', 'C05', 'C06')
     required_covers = ('forwarded', 'keyerror')
 
     def setup(self, interp, scenario):
